@@ -2,7 +2,7 @@ import re
 
 ID = "C10"
 LEVEL = "other"
-COQ_TARGETS = ["Props/Properties_C10.vo", "Extract/ExtractCap.vo"]
+COQ_TARGETS = ["Props/Properties_C10.vo", "Extract/ExtractCap.vo", "Cap/CapRefuted.vo"]
 PROPS_FILES = ["Props/Properties_C10.v"]
 RUNS = [dict(name="cap", harness="c10", driver="cap", model_ml="cap_model", timeout=3000)]
 EXPLANATION = ("Small-step model of capability.go (Client/clientHook/ClientPromise/WeakClient) with explicit mutexes; "
